@@ -128,6 +128,28 @@ PROPS.update({
         "explanation": "oracle: reported schema (names, types, timeframe, record type) == created schema after create and after restart, or the creation was rejected; the schema is still enforced after restart",
         "budget": {"quick": 40, "thorough": 600},
     },
+    "C16": {
+        "level": "exploration", "engine": "MODEL",
+        "rule": ("6-15 requests per run (create / write with auto-create / query / destroy) whose keys are drawn from a grammar of hostile components ('..', '.', empty, '../..', "
+                 "'../../outside', 'x/..', '~', blanks, 300-byte names, ...) in every item position, with 3-, 4-item and permuted category lists; the simulated disk holds victim files "
+                 "outside the root and REFUSES (EPERM) and records every mutating operation whose cleaned path is outside the root; "
+                 "distinct_nontrivial = distinct (operation, component classes per position, #items)"),
+        "faults": ["hostile keys", "simulated-disk guard (mutations outside the root are refused and recorded)"],
+        "assumptions": [A_MODEL, "the guard sees every file operation of the instrumented packages; a content hash of everything outside the root cross-checks that it missed none"],
+        "explanation": "oracle: the disk guard recorded no mutating operation outside the root, nothing outside the root changed, no request panicked",
+        "budget": {"quick": 30, "thorough": 600},
+    },
+    "C17": {
+        "level": "exploration", "engine": "MODEL+SCHED",
+        "rule": ("key space 2 symbols x 2 timeframes x 2 attribute groups, two schemas; operations create / write into one of 4 years / destroy / re-create / query / list; "
+                 "50% of runs sequential (catalog compared with disk and with a freshly loaded catalog after EVERY operation), 50% with 2-4 concurrent client tasks under the seeded "
+                 "scheduler (preemption 2/10/30% at every lock, channel and file operation), compared at quiescence; "
+                 "distinct_nontrivial = distinct (mode, #clients, schedule hash)"),
+        "faults": ["seeded preemption at every yield point (concurrent half)", "lock contention on the catalog RWMutexes"],
+        "assumptions": [A_MODEL, "tasks interleave at yield points only (file, lock, channel operations)"],
+        "explanation": "oracle: ListSymbols(tbk) == bucket directories holding year files on disk == listing of catalog.NewDirectory on the same disk, and the same for year files; no panic, no hang",
+        "budget": {"quick": 35, "thorough": 600},
+    },
     "C09": {
         "level": "exploration", "engine": "MODEL", "rule": MODEL_RULE,
         "faults": ["none (fault-free configuration)", "graceful restart", "compression on/off", "highly compressible payload bursts"],
